@@ -338,6 +338,15 @@ async def create_tcp_local_listener(
         server = await loop.create_server(protocol_factory, sock=sock)
         servers.append(server)
 
+    if conn.is_closed():
+        # The connection was lost while the listener was being set up,
+        # so there's nothing left which would ever close it
+
+        for server in servers:
+            server.close()
+
+        raise OSError(errno.ENOTCONN, 'SSH connection closed')
+
     listen_key = listen_host or '', listen_port
     return SSHForwardListener(conn, servers, listen_key, listen_port)
 
@@ -371,6 +380,10 @@ async def create_unix_forward_listener(conn: 'SSHConnection',
         return SSHLocalPathForwarder(conn, coro)
 
     server = await loop.create_unix_server(protocol_factory, listen_path)
+
+    if conn.is_closed():
+        server.close()
+        raise OSError(errno.ENOTCONN, 'SSH connection closed')
 
     return SSHForwardListener(conn, [server], listen_path)
 
